@@ -20,7 +20,10 @@ func stripUnknown(m protoreflect.Message, depth int) {
 	m.Range(func(fd protoreflect.FieldDescriptor, v protoreflect.Value) bool {
 		switch {
 		case fd.IsMap() && fd.MapValue().Kind() == protoreflect.MessageKind:
-			v.Map().Range(func(_ protoreflect.MapKey, mv protoreflect.Value) bool { stripUnknown(mv.Message(), depth+1); return true })
+			v.Map().Range(func(_ protoreflect.MapKey, mv protoreflect.Value) bool {
+				stripUnknown(mv.Message(), depth+1)
+				return true
+			})
 		case fd.IsList() && fd.Kind() == protoreflect.MessageKind:
 			for i := 0; i < v.List().Len(); i++ {
 				stripUnknown(v.List().Get(i).Message(), depth+1)
@@ -198,8 +201,8 @@ func runC0607(cfg *config, res *monitor.Result) {
 					seen := map[string]bool{}
 					for _, it := range o.items {
 						k := it.String()
-						if it.InWKT && t.pkg.Flavour == "gogo" {
-							continue // decoded/encoded by gogo's own code for its well-known types
+						if it.InWKT && (t.pkg.Flavour == "gogo" || it.Kind == "unknown-changed") {
+							continue // decoded/encoded by the runtime's own code for its well-known types (protobuf-go re-encodes the keys of unknown fields minimally)
 						}
 						if seen[k] {
 							continue
